@@ -6,7 +6,7 @@ From Coq Require Import ZArith List Lia Bool Permutation.
 From LZ4V Require Import Spec.BlockSpec Spec.XXH32 Spec.FrameSpec Gen.Consts.
 From LZ4V Require Import Model.FrameC Proofs.FrameCTheorems.
 From LZ4V Require Import Model.Sparse Model.CliOpts Model.CompressPipe Proofs.SparseProofs Proofs.CliProofs Proofs.CliCompInst.
-From LZ4V Require Import Proofs.BlkInst Proofs.BlkFrameInst Proofs.BlkInstLinked Proofs.BlkInstHcLinked.
+From LZ4V Require Import Proofs.BlkInst Proofs.BlkFrameInst Proofs.BlkInstFastLinked Proofs.BlkInstHcLinked.
 Import ListNotations.
 Local Open Scope Z_scope.
 
@@ -34,7 +34,7 @@ Proof.
   exact (mt_roundtrip_discharged (blk_indep (fp_level p) sf sm sh) (indep_contract (fp_level p) sf sm sh Hst) skipcrc p [] content).
 Qed.
 
-(* level < 2, any block mode, with or without -D dictionary (a CDict): LZ4_compress_fast_continue, Proofs.BlkInstLinked *)
+(* level < 2, any block mode, with or without -D dictionary (a CDict): LZ4_compress_fast_continue, Proofs.BlkInstFastLinked *)
 Theorem st_roundtrip_fast_stream_unconditional : forall st, (forall n, lorc_ok (st n)) ->
   forall (skipcrc : bool) (p : lz4f_prefs) (blockSize : Z) (dict content : list Z),
   fp_level p < LZ4HC_CLEVEL_MIN ->
